@@ -6,6 +6,9 @@ import ParryModel.C12.Theorems4
 import ParryModel.C12.Theorems5
 import ParryModel.C12.Theorems6
 import ParryModel.C12.Theorems7
+import ParryModel.C12.Theorems8
+import ParryModel.C12.Theorems9
+import ParryModel.C12.Theorems10
 import Mathlib.Analysis.Real.Sqrt
 /-!
 # C12 theorems (first pass): the argmax primitive of the hull algorithms, and certificate soundness.
